@@ -184,6 +184,21 @@ def check_add_slide(ctx, prs, layout, rng, label, lines, impl, metas):
     got_keys = [key_of(sp) for sp in got]
     if got_keys != want_keys:
         ctx.fail("placeholders-not-mirrored", f"{label}/{layout.name}: slide placeholders {got_keys}, layout's cloneable placeholders {want_keys}", case)
+    # the same through the object model: iterating slide.placeholders delivers exactly these elements - in idx order, as
+    # documented (a stable sort of the document order) -; its length agrees; looking one up by idx delivers the first
+    # element carrying that idx
+    try:
+        api = [ph._element for ph in slide.placeholders]
+        by_idx = sorted(got, key=lambda sp: key_of(sp)[1])
+        if len(api) != len(got) or any(a is not b for a, b in zip(api, by_idx)) or len(slide.placeholders) != len(got):
+            ctx.fail("placeholders-api-not-mirrored", f"{label}/{layout.name}: slide.placeholders iterates {[key_of(e) for e in api]} (len() = {len(slide.placeholders)}), "
+                     f"the slide's placeholder elements are {got_keys}", case)
+        for k in {key_of(sp)[1] for sp in got}:
+            first = next(sp for sp in got if key_of(sp)[1] == k)
+            if slide.placeholders[k]._element is not first:
+                ctx.fail("placeholders-api-lookup", f"{label}/{layout.name}: slide.placeholders[{k}] is not the first placeholder with that idx", case)
+    except Exception as e:  # noqa
+        ctx.fail("placeholders-api-raises", f"{label}/{layout.name}: reading slide.placeholders raised {type(e).__name__}: {str(e)[:100]}", case)
     names = [str(n) for n in slide.shapes._spTree.xpath("//p:cNvPr/@name")]
     ph_names = [sp.nvSpPr.cNvPr.get("name") for sp in got]
     if len(set(ph_names)) != len(ph_names):
